@@ -25,5 +25,8 @@ CLAIMED = {
  "C11": ("exploration",
          "Every finite stream constructor instance inside the parameter bounds (ranges with both step signs incl. the 2^63 neighbourhood, permutations/subsequences/combinations/cartesian powers, stream(seq), lazy map/filter/zip) at every drop position is observed through len, list, every index and slice in the window, reverse, first/last, in, truthiness, unpacking and for, and every sequence of up to 2-3 observations on one stream variable is replayed (variable unchanged, answers as on a fresh stream); infinite streams against their recurrences. Reference: Python range/itertools.",
          GRID_NOTE, "bounded exhaustive enumeration of constructor instances x drop positions x observations and of observation histories on the real interpreter against Python range/itertools", "DESIGN.md §4 C11"),
+ "C13": ("exploration",
+         "About 120 function forms of the sequence library (map/filter/reject/partition/flat_map/flatten/each/count/any/all/find/locate/take/drop with predicates, zip/ziplongest/pairwise/transpose/enumerate, fold/scan/sum/product/min/max, sort/sort_on/reverse/unique, group/group'/group_all/window/prefixes/suffixes/frequencies, ++ .+ +. ** ^^ join split words lines, permutations/combinations/subsequences) x seven input kinds x ALL sequences of length 0..3 (quick) / 0..5 (thorough) over 4-symbol alphabets with cross-level duplicates, compared with Python one-liners including kind preservation, stability and first-occurrence order.",
+         GRID_NOTE, GRID_TECH, "DESIGN.md §4 C13"),
 }
 NOT_YET ={("C%02d" % i): "check not built yet in this session (design in DESIGN.md §4); will be claimed when its explorer exists" for i in range(1, 18)}
